@@ -194,7 +194,11 @@ def variable_to_string(variable_type, var_value):
             or variable_type.__name__ in LIST_LIKE_TYPES:
         # if we are a collection then we do not want to use built in string as this can be very
         # large, and quite pointless, instead we just get the size of the collection
-        return 'Size: %s' % len(var_value)
+        try:
+            return 'Size: %s' % len(var_value)
+        except BaseException:
+            # we match the collection types by name, so this can be a user type of the same name that has no length
+            return f'{type(var_value)}@{id(var_value)}'
     else:
         try:
             # everything else just gets a string value
